@@ -257,6 +257,60 @@ theorem c15_416_iff (rq : Req) (rs : Resp) (unit : Bytes) (es : List Elem)
       · intro _; exact hnone_some.mp (fun h => hnn (hnil.mpr h))
       · intro _; simp [respMulti]
 
+/-- The whole statement at the outermost function, for a grammatical Range header
+    of at most 10 specs on a request that satisfies every precondition: if some
+    spec is satisfiable the answer is 206, its parts are in bounds, every
+    satisfiable requested range lies inside a part, and the body consists of
+    exactly the representation's bytes of those parts (one part: the slice itself;
+    several: the multipart/byteranges framing of `multipartBody`). -/
+theorem c15_range_response (rq : Req) (rs : Resp) (unit : Bytes) (es : List Elem)
+    (happ : Applicable rq rs (unit ++ rangeSetText es))
+    (hunit : unit.length = 6 ∧ eqIcase unit bytesEq = true)
+    (hne : es ≠ []) (hwf : ∀ e ∈ es, e.WF) (hnc : ∀ e ∈ es, e.spec.NoClamp)
+    (hcount : es.length ≤ 10)
+    (hlen : rs.body.flatten ≠ []) (hmax : (rs.body.flatten.length : Int) ≤ LLONG_MAX)
+    (hsat : ∃ e ∈ es, (e.spec.sem rs.body.flatten.length).isSome) :
+    let out := rfc7233 rq rs
+    let rep := rs.body.flatten
+    let parts := (parse (rangeSetText es) rep.length).map toNatRng
+    out.status = 206 ∧
+    (∀ p ∈ parts, p.1 ≤ p.2 ∧ p.2 < rep.length) ∧
+    (∀ e ∈ es, ∀ r, e.spec.sem rep.length = some r →
+        ∃ p ∈ parts, (p.1 : Int) ≤ r.1 ∧ r.2 ≤ (p.2 : Int)) ∧
+    out.contentLength = some (natDec out.body.flatten.length) ∧
+    ((∃ a b, parts = [(a, b)] ∧ out.contentRange = some (contentRange a b rep.length) ∧
+        out.body.flatten = slice rep a b) ∨
+     (2 ≤ parts.length ∧ out.contentType = some multipartType ∧
+        out.body.flatten = multipartBody rep rs.contentType parts)) := by
+  intro out rep parts
+  have h206 : (rfc7233 rq rs).status = 206 :=
+    (c15_416_iff rq rs unit es happ hunit hne hwf hnc hlen hmax).2.mpr hsat
+  have hb : (withAcceptRanges rs).body = rs.body := (same_withAcceptRanges rs).2.1
+  have hct : (withAcceptRanges rs).contentType = rs.contentType := (same_withAcceptRanges rs).2.2.2.2.1
+  have hst : (withAcceptRanges rs).status = 200 := by
+    rw [(same_withAcceptRanges rs).1]; exact happ.2.1
+  have hdrop : (unit ++ rangeSetText es).drop 6 = rangeSetText es := by
+    rw [← hunit.1]; simp
+  have hpos : 0 < rs.body.flatten.length := by
+    cases hh : rs.body.flatten with
+    | nil => exact absurd hh hlen
+    | cons x xs => simp
+  have he := rfc7233_applicable happ
+  have hpe := c15_parts_exact (withAcceptRanges rs) (unit ++ rangeSetText es) hst (by rw [← he]; exact h206)
+  simp only [hb, hct, hdrop, ← he] at hpe
+  obtain ⟨_, hbounds, hcl, hshape⟩ := hpe
+  refine ⟨h206, hbounds, ?_, hcl, ?_⟩
+  · intro e he' r hr
+    obtain ⟨p, hp, h1, h2⟩ := c15_satisfiable_covered rs.body.flatten.length hpos hmax es hne hwf hnc
+      hcount e he' r hr
+    have hin := parse_inB (rangeSetText es) rs.body.flatten.length (by omega) p hp
+    refine ⟨toNatRng p, List.mem_map_of_mem hp, ?_, ?_⟩
+    · simp only [toNatRng, InB] at hin ⊢; omega
+    · simp only [toNatRng, InB] at hin ⊢; omega
+  · rcases hshape with ⟨a, b, h1, h2, _, h4⟩ | ⟨h1, _, h3, h4⟩
+    · left; exact ⟨a, b, h1, h2, h4⟩
+    · right; exact ⟨h1, h3, h4⟩
+
 /-- The documented limit of the code (the one place where it departs from RFC 9110
     14.1.2): a last-pos of 2^63-1 or more makes the spec invalid instead of
     "to the end", so `bytes=0-9223372036854775807` on a 10-byte body is answered
@@ -400,6 +454,8 @@ example : exElem.WF ∧ exElem.spec.NoClamp ∧ exElem.spec.sem 12 = some (9, 11
   · show ((decVal (ofString "03") : Nat) : Int) < -LLONG_MIN; decide
 example : Applicable exReq exResp (ofString "bytes=2-5") := by
   refine ⟨rfl, rfl, rfl, Or.inl (by decide), rfl, by decide, rfl, rfl⟩
+example : ofString "bytes=2-5" = ofString "bytes=" ++ rangeSetText [⟨[], .range (ofString "2") (ofString "5"), []⟩]
+    ∧ (Spec.range (ofString "2") (ofString "5")).sem 12 = some (2, 5) := by decide
 example : (rfc7233 { exReq with range := some (ofString "bytes=12-") } exResp).status = 416 := by decide
 example : SameRepresentation (rfc7233 { exReq with method := 1 } exResp) exResp := by
   unfold SameRepresentation; decide
